@@ -229,7 +229,7 @@ func (en *Engine) symCopy(st *State, dst SliceV, srcLen *Term, srcElem func(i *T
 	inr := And(Le(dst.Off, k), Lt(k, Add(dst.Off, n)))
 	st.assume(Forall(k, Ite(inr, Eq(Select(na, k), srcElem(Sub(k, dst.Off))), Eq(Select(na, k), Select(sa.Arr, k)))))
 	nc := &SymArrCell{Arr: na, N: sa.N, Elem: sa.Elem}
-	en.noteWrite(st, PtrV{R: dst.R, Path: dst.Path}, pos)
+	en.checkWrite(st, dst.R, dst.Path, dst.Off, n, pos)
 	st.mem[dst.R] = en.storePath(st, en.regionCell(st, dst.R), dst.Path, dst.R.typ, nc)
 	return n
 }
@@ -574,6 +574,14 @@ func (en *Engine) applyContract(st *State, f *Frame, x *ssa.Call, fn *ssa.Functi
 	TS.mu.Unlock()
 	nFactsBefore := len(st.facts)
 	for _, m := range fc.Modifies {
+		if st.wframe != nil {
+			switch l := sc.lvalue(m.Expr).(type) {
+			case PtrV:
+				en.checkWrite(st, l.R, l.Path, nil, nil, pos)
+			case SliceV:
+				en.checkWrite(st, l.R, l.Path, l.Off, l.Len, pos)
+			}
+		}
 		en.havocLvalue(st, sc, m)
 	}
 	TS.mu.Lock()
